@@ -118,7 +118,8 @@ async def drive(c, tier, scripts, rnd):
             # the end comes while the closing side's data is still backed up behind a slow reader
             if not quick or ci < 4:
                 spec = [(relayrun.pressure_script(rnd), "ok", KINDS[(i + ci) % 3], 1 << 16) for i in range(2 if quick else 4)]
-                ev = await relayrun.run_batch(dep, spec, vlib.seed() * 1000 + 800 + ci, fid0=3000, mbox=mbox, end_cap=max(end_cap, 20.0),
+                spec += [(relayrun.slow_drain_script(rnd, d), "ok", KINDS[(i + ci) % 3], 1 << 16) for i, d in enumerate(["up", "down"])]
+                ev = await relayrun.run_batch(dep, spec, vlib.seed() * 1000 + 800 + ci, fid0=3000, mbox=mbox, end_cap=max(end_cap, 25.0),
                                               settle_cap=12.0 if not quic else 45.0)
                 batches.append(ev)
                 c.add("pressure_flows", len(spec))
